@@ -398,6 +398,7 @@ class Translator:
         self.names = {}    # decl id -> lean name
         self.order = []    # (lean name, text) in dependency order
         self.used = set()
+        self.reserved = {}   # decl key -> lean name fixed in advance (roots)
 
     def mangle(self, decl):
         nm = decl.get('name', 'fn')
@@ -433,6 +434,7 @@ class Translator:
         if did in self.index.ambiguous:
             raise TranslateError('ambiguous function key %s' % (did,))
         decl = self.index.funcs[did]
+        name = name or self.reserved.get(did)
         lean_name = name or self.mangle(decl)
         if name:
             self.used.add(name)
